@@ -31,6 +31,15 @@ fn dfs(prop: &str, g: &mut Game, p: &Pos, depth: u32, trail: &mut Vec<String>, r
             return;
         }
     }
+    if prop == "c16" {
+        // static evaluation (piece-square, passed-pawn and mobility tables are read through unchecked
+        // lookups into statics) + its colour-mirror twin + the blend bracket, all interpreted
+        if let Some((sig, what)) = crate::mon_pos::check_c16(g, p, l) {
+            report.violation(Violation { monitor: "c16".into(), signature: sig, what, replay_args: vec!["c16".into(), "--fen".into(), root.into(), "--moves".into(), trail.join(" ")], detail: J::Null });
+            return;
+        }
+        l.feat("evaluations_under_miri");
+    }
     if depth == 0 {
         return;
     }
